@@ -64,14 +64,15 @@ class SimEntropy:
         self.seed = seed
         self.counter = 0
         self.ledger: t.List[t.Tuple[int, str, int, str]] = []  # (draw idx, op label, n, hex digest)
-        self.scripted: t.Dict[int, t.List[bytes]] = collections.defaultdict(list)
+        self.scripted: t.Dict[t.Any, t.List[bytes]] = collections.defaultdict(list)  # key: n or (source, n)
         self.op = "-"
         self.frozen: t.Optional[bytes] = None  # if set every draw returns this pattern (sensitivity experiments)
 
     def draw(self, n: int, source: str = "urandom") -> bytes:
-        q = self.scripted.get(n)
+        q = self.scripted.get((source, n)) or self.scripted.get(n)
         if q:
             out = q.pop(0)
+            self.scripted_used = getattr(self, "scripted_used", 0) + 1
         elif self.frozen is not None:
             out = (self.frozen * (n // len(self.frozen) + 1))[:n]
         else:
